@@ -247,7 +247,7 @@ def run(ctx):
         format_table(ctx, drv)
         for i in range(6 if ctx.tier == 'quick' else 60):
             transparency(ctx, drv)
-        for i in range(150 if ctx.tier == 'quick' else 4000):
+        for i in range(350 if ctx.tier == 'quick' else 4000):
             watermark(ctx, drv)
     finally:
         drv.close()
